@@ -70,6 +70,8 @@ pub struct Action {
     pub replace: Option<Vec<u8>>,
     pub drop: bool,
     pub crash_sender_after: bool,
+    /// do not send yet: ask again after more traffic has happened (rushing adversary)
+    pub hold: bool,
 }
 
 pub struct MsgMeta<'a> {
@@ -78,6 +80,11 @@ pub struct MsgMeta<'a> {
     pub label: &'a str,
     pub k: usize,
     pub idx_from: usize,
+    /// everything sent so far (a corrupted party may use what was addressed to it)
+    pub msgs: &'a [MsgRec],
+    pub labels: &'a [String],
+    /// how often this message has been held back already
+    pub held: u32,
 }
 
 pub trait Adversary: Send {
@@ -125,6 +132,7 @@ pub struct Net {
     /// a send never completes in its first poll (models a transport whose send takes time, so that
     /// overlapping sends to one peer are observable whatever the capacity)
     pub send_yields: bool,
+    held_wakers: Vec<Waker>,
 }
 
 fn fnv(h: &mut u64, x: u64) {
@@ -163,6 +171,7 @@ impl Net {
             progress: 0,
             eager: false,
             send_yields: false,
+            held_wakers: vec![],
         }
     }
 
@@ -223,6 +232,9 @@ impl Net {
 
     pub fn close(&mut self, p: usize) {
         self.closed[p] = true;
+        for w in std::mem::take(&mut self.held_wakers) {
+            w.wake();
+        }
         for q in 0..self.n {
             if let Some(w) = self.recv_wakers[q][p].take() {
                 w.wake();
@@ -273,6 +285,7 @@ impl SimChan {
 }
 
 struct SendFut<'a> {
+    held: u32,
     yielded: bool,
     ch: &'a SimChan,
     to: usize,
@@ -328,22 +341,25 @@ impl Future for SendFut<'_> {
             net.send_wakers[me][to] = Some(cx.waker().clone());
             return Poll::Pending;
         }
-        let data = self.data.take().unwrap_or_default();
         let lid = self.label_id;
-        let k = {
-            let e = net.occ.entry((me, to, lid)).or_insert(0);
-            let k = *e;
-            *e += 1;
-            k
-        };
+        let k = *net.occ.get(&(me, to, lid)).unwrap_or(&0);
         let idx_from = net.sent_by[me];
-        net.sent_by[me] += 1;
         let mut action = Action::default();
         if let Some(mut adv) = net.adversary.take() {
-            let meta = MsgMeta { from: me, to, label: &self.label, k, idx_from };
-            action = adv.on_send(&meta, &data);
+            let held = self.held;
+            let empty = vec![];
+            let meta = MsgMeta { from: me, to, label: &self.label, k, idx_from, msgs: &net.msgs, labels: &net.labels, held };
+            action = adv.on_send(&meta, self.data.as_ref().unwrap_or(&empty));
             net.adversary = Some(adv);
         }
+        if action.hold && self.held < 20_000 {
+            self.held += 1;
+            net.held_wakers.push(cx.waker().clone());
+            return Poll::Pending;
+        }
+        let data = self.data.take().unwrap_or_default();
+        *net.occ.entry((me, to, lid)).or_insert(0) += 1;
+        net.sent_by[me] += 1;
         let id = net.msgs.len();
         let mutated = action.replace.is_some() || action.drop;
         let wire = if action.drop { None } else { Some(action.replace.unwrap_or_else(|| data.clone())) };
@@ -362,6 +378,9 @@ impl Future for SendFut<'_> {
         });
         net.ev(EvKind::SendDone, me, to, lid, len, id);
         crate::hooks::tick_msg_clock(net.msgs.len());
+        for w in std::mem::take(&mut net.held_wakers) {
+            w.wake();
+        }
         if wire.is_some() {
             net.inflight[me][to].push_back(id);
             if net.eager {
@@ -459,7 +478,7 @@ impl Channel for SimChan {
     type RecvError = ChanErr;
 
     async fn send_bytes_to(&self, party: usize, data: Vec<u8>, phase: &str) -> Result<(), ChanErr> {
-        SendFut { yielded: false, ch: self, to: party, data: Some(data), label: phase.to_string(), label_id: 0, started: false, done: false }.await
+        SendFut { held: 0, yielded: false, ch: self, to: party, data: Some(data), label: phase.to_string(), label_id: 0, started: false, done: false }.await
     }
 
     async fn recv_bytes_from(&self, party: usize, phase: &str) -> Result<Vec<u8>, ChanErr> {
